@@ -1,3 +1,5 @@
+import NrDaemon.Props.Reviewed
+import NrDaemon.Gen.Skeleton
 import NrDaemon.Model.SpanQueue
 import NrDaemon.Gen.SpanQueue
 import NrDaemon.Gen.Skeleton
@@ -477,3 +479,12 @@ def reviewedQueueBatch : List String := [
 
 /-- **C16 (tie: the producer the machine transcribes is the code's).** -/
 theorem C16_queuebatch_source_tied : Gen.Skeleton.queueBatch = reviewedQueueBatch := rfl
+
+
+/-! ## Ties to the current source: the functions transcribed by the model have not changed since they were reviewed (`Props/Reviewed.lean`) -/
+
+/-- **C16 (tie).**  `observerShutdown`: initShutdown, bounded wait, closeMessages. -/
+theorem C16_shutdown_source_tied : Gen.Skeleton.observerShutdown = Reviewed.observerShutdown := rfl
+
+/-- **C16 (tie).**  `doStreaming`: the worker's select: queue (closed = leave), response error, shutdown signal. -/
+theorem C16_do_streaming_source_tied : Gen.Skeleton.doStreaming = Reviewed.doStreaming := rfl
